@@ -101,7 +101,7 @@ def check(case: Dict[str, Any]) -> CaseInfo:
 
 @st.composite
 def c15_case(draw):
-    o = Opts(steps=[0, 1, 2, 3], launch_names=vocab.DOC_KERNEL_LAUNCHES, w_launch=7, w_sync=2, max_top=5, early_kernels=True)
+    o = Opts(fractional_stamps=True, steps=[0, 1, 2, 3], launch_names=vocab.DOC_KERNEL_LAUNCHES, w_launch=7, w_sync=2, max_top=5, early_kernels=True)
     case = draw(sim_case(o, max_ranks=3))
     all_ranks = [r["rank"] for r in case["ranks"]]
     mode = draw(st.sampled_from(["none", "empty", "subset", "subset", "all"] if 0 in all_ranks else ["subset", "all", "subset"]))  # None / [] mean rank 0
